@@ -38,7 +38,8 @@ def sound(n1: str, n2: str, n3: str, c1: Const, c2: Const) -> bool:
     pre: c1 == c1 and c2 == c2
     post: _
     """
-    tick()
+    if tick():
+        return True
     k = int(PART) if PART else 0
     pattern, si = PAIRS[k]
     if excluded("C10.sound", k=k, n1=n1, n2=n2, n3=n3, c1=c1, c2=c2):
@@ -73,7 +74,8 @@ def ident_boundary(n1: str, n2: str, use_call: bool) -> bool:
     pre: len(n1) <= 5 and len(n2) <= 2
     post: _
     """
-    tick()
+    if tick():
+        return True
     ident = NEAR_PLACEHOLDERS[int(PART) if PART else 0]
     if use_call:
         pattern, tree = "%s(___)" % ident, SHAPES[6](n1, n2, "z", 0, 0)
@@ -92,7 +94,8 @@ def sound_reach(n1: str, n2: str, c1: Const) -> bool:
     pre: len(n1) <= 2 and len(n2) <= 2
     post: _
     """
-    tick()
+    if tick():
+        return True
     tree = SHAPES[0](n1, n2, "z", c1, 0)
     matches, matcher, root = run_matcher("_a_ = _a_ + 1", tree)
     return len(matches) == 0
@@ -120,7 +123,8 @@ def sub_sound(n1: str, n2: str, n3: str, c1: Const) -> bool:
     pre: len(n1) <= 2 and len(n2) <= 2 and len(n3) <= 2 and c1 == c1
     post: _
     """
-    tick()
+    if tick():
+        return True
     outer, inner, si = SUB_PAIRS[int(PART) if PART else 0]
     tree = SHAPES[si](n1, n2, n3, c1, 1)
     matches, matcher, root = run_matcher(outer, tree)
